@@ -64,6 +64,8 @@ class Transaction:
         self._inflight_paths: Set[str] = set()
         # Schemas the data files written by this transaction were written with
         self._written_schemas: List[Schema] = []
+        # Pre-built files queued while the table had no persisted schema
+        self._unvalidated_files: List[DataFile] = []
 
         self._lock = threading.RLock()
 
@@ -82,6 +84,7 @@ class Transaction:
             self._operations = []
             self._written_files = []
             self._written_schemas = []
+            self._unvalidated_files = []
             self._inflight_markers = []
             self._inflight_paths = set()
 
@@ -118,6 +121,10 @@ class Transaction:
                 raise FileNotFoundError(f"Data file does not exist: {data_file.file_path}")
             if table_schema is not None:
                 self._validate_file_schema(data_file, table_schema)
+            else:
+                # No persisted schema to check against YET (table not created,
+                # or created schema-less): checked again at commit time.
+                self._unvalidated_files.append(data_file)
             if data_file.file_path.lstrip("/") not in self._written_files:
                 # A pre-built file was written by the caller's own writer: nothing
                 # has flushed it or persisted its directory entry. The commit
@@ -249,7 +256,7 @@ class Transaction:
         first append - committing the file would put a divergent parquet file
         into the table and every later full scan would fail on concat.
         """
-        if not self._written_schemas:
+        if not self._written_schemas and not self._unvalidated_files:
             return
         table_schema = None
         for s in base_metadata.schemas or []:
@@ -273,6 +280,10 @@ class Transaction:
                 (f.get("id"), f.get("name"), type_key(f.get("type")), bool(f.get("required", False)))
                 for f in schema.fields
             ]
+
+        # Pre-built files queued while there was no schema to check them against
+        for data_file in self._unvalidated_files:
+            self._validate_file_schema(data_file, table_schema)
 
         expected = ordered(table_schema)
         for written in self._written_schemas:
